@@ -123,8 +123,100 @@ fn budget(arena_len: usize) -> usize {
     4 * arena_len + 16
 }
 
+thread_local! {
+    /// one-shot protocol mode for the next `drain` / `drain_clone` on this thread
+    static PROTO: std::cell::Cell<Option<(usize, Fin)>> = std::cell::Cell::new(None);
+}
+
+/// the next traversal made through `ql` / `trav` takes `k` items with `next()` and finishes with `fin`
+pub fn set_proto(k: usize, fin: Fin) {
+    PROTO.with(|p| p.set(Some((k, fin))));
+}
+
+pub fn clear_proto() {
+    PROTO.with(|p| p.set(None));
+}
+
+fn drain_proto<I: Iterator, F: FnMut(I::Item) -> Item>(mut it: I, cap: usize, k: usize, fin: Fin, mut f: F) -> ListObs {
+    let mut o = ListObs { fused: true, ..Default::default() };
+    let mut po = ProtoObs { k, fin, head: 0, last: None, count: None, nth: None, hints: Vec::new() };
+    let mut ended = false;
+    for _ in 0..k {
+        let h = it.size_hint();
+        po.hints.push((o.items.len(), h.0, h.1));
+        match it.next() {
+            Some(x) => o.items.push(f(x)),
+            None => {
+                ended = true;
+                break;
+            }
+        }
+    }
+    po.head = o.items.len();
+    let h = it.size_hint();
+    po.hints.push((o.items.len(), h.0, h.1));
+    let _ = ended;
+    {
+        let items = &mut o.items;
+        let mut push = |x: I::Item| {
+            items.push(f(x));
+            if items.len() > cap {
+                panic!("ORACLE:iterator finisher {:?} delivers more items than the trie has nodes", fin);
+            }
+        };
+        match fin {
+            Fin::Fold => it.fold((), |(), x| push(x)),
+            Fin::ForEach => it.for_each(|x| push(x)),
+            Fin::Collect => {
+                for x in it.collect::<Vec<_>>() {
+                    push(x);
+                }
+            }
+            Fin::Last => po.last = Some(it.last().map(|x| f2(&mut push, x))),
+            Fin::Count => po.count = Some(it.count()),
+            Fin::Nth(n) => {
+                po.nth = Some(it.nth(n).map(|x| f2(&mut push, x)));
+                while let Some(x) = it.next() {
+                    push(x);
+                }
+                for _ in 0..3 {
+                    if it.next().is_some() {
+                        o.fused = false;
+                    }
+                }
+            }
+        }
+    }
+    // `last` / `nth` results were pushed to `items` by f2 to convert them; take them out again
+    match fin {
+        Fin::Last => {
+            if let Some(Some(_)) = po.last {
+                po.last = Some(o.items.pop());
+            }
+        }
+        Fin::Nth(_) => {
+            if let Some(Some(_)) = po.nth {
+                let x = o.items.remove(po.head);
+                po.nth = Some(Some(x));
+            }
+        }
+        _ => {}
+    }
+    o.proto = Some(po);
+    o
+}
+
+/// convert one item through the pushing closure (keeps a single mutable borrow of the converter)
+fn f2<X, P: FnMut(X)>(push: &mut P, x: X) -> Item {
+    push(x);
+    (NO_EP, NO_VAL)
+}
+
 /// drain an iterator with a step budget, then poke it 3 more times
 fn drain<I: Iterator, F: FnMut(I::Item) -> Item>(mut it: I, cap: usize, mut f: F) -> ListObs {
+    if let Some((k, fin)) = PROTO.with(|p| p.take()) {
+        return drain_proto(it, cap, k, fin, f);
+    }
     let mut o = ListObs { fused: true, ..Default::default() };
     loop {
         match it.next() {
@@ -148,6 +240,38 @@ fn drain<I: Iterator, F: FnMut(I::Item) -> Item>(mut it: I, cap: usize, mut f: F
 
 /// drain a cloneable iterator; after `at` items take a clone and drain both
 fn drain_clone<I: Iterator + Clone, F: FnMut(I::Item) -> Item>(mut it: I, cap: usize, at: Option<usize>, mut f: F) -> ListObs {
+    if let Some((k, fin)) = PROTO.with(|p| p.take()) {
+        // protocol mode on a clone taken mid-way every other time
+        if k % 2 == 1 {
+            let mut skipped = Vec::new();
+            let mut hints = Vec::new();
+            for _ in 0..k {
+                let h = it.size_hint();
+                hints.push((skipped.len(), h.0, h.1));
+                match it.next() {
+                    Some(x) => skipped.push(f(x)),
+                    None => break,
+                }
+            }
+            let c = it.clone();
+            drop(it);
+            let mut o = drain_proto(c, cap, 0, fin, &mut f);
+            let head = skipped.len();
+            if let Some(po) = o.proto.as_mut() {
+                po.k = k;
+                po.head = head;
+                for h in po.hints.iter_mut() {
+                    h.0 += head;
+                }
+                hints.extend(po.hints.drain(..));
+                po.hints = hints;
+            }
+            skipped.extend(o.items.drain(..));
+            o.items = skipped;
+            return o;
+        }
+        return drain_proto(it, cap, k, fin, f);
+    }
     let mut o = ListObs { fused: true, ..Default::default() };
     let mut cl: Option<I> = None;
     if at == Some(0) {
